@@ -12,7 +12,7 @@ EXTENDS Analyses, Arrival
 
 H == 40
 Task(T, J, C, D) == [C |-> C, rbf |-> [i \in 1..(H + 1) |-> C * EtaTable([k |-> "sporadic", T |-> T, J |-> J], H)[i]],
-                     last |-> 1, D |-> D, seg |-> C]
+                     last |-> 1, D |-> D, seg |-> C, T |-> T, J |-> J]
 
 VARIABLES tua, oth, B, lim
 vars == <<tua, oth, B, lim>>
@@ -58,4 +58,24 @@ Monotone ==
     \* an Ok result does not change when the limit is raised
     /\ \A p \in Policies : LET v == Fp(p, tua, B, lim) IN (v # NONE) => Fp(p, tua, B, lim + 3) = v
     /\ LET v == FifoDef(<<tua, oth>>, lim) IN (v # NONE) => FifoDef(<<tua, oth>>, lim + 3) = v
+
+\* Scaling ------------------------------------------------------------------------
+\* Homogeneity: multiplying every period, jitter, cost, deadline, the blocking bound and the limit by K multiplies
+\* the bound by K (Err stays Err) -- for the fully preemptive, non-preemptive and floating non-preemptive FP analyses,
+\* for fully preemptive EDF and for FIFO.  This is what lets bounds recorded from the implementation at magnitudes far
+\* beyond TLC's integers be checked against the bounds of the K-times smaller system (stage "scaled-systems" of C06:
+\* the small system is validated equationally by TLC, the relation big = K * small by Apalache over unbounded integers).
+\* The EDF analyses with non-preemptive segments are NOT homogeneous (the blocking term "segment - 1" does not scale;
+\* EdfFnpWouldBeHomogeneous below is violated) and are not part of that stage.
+Scale(t, K) == [Task(K * t.T, K * t.J, K * t.C, K * t.D) EXCEPT !.last = 1, !.seg = K * t.seg]
+Times(K, v) == IF v = NONE THEN NONE ELSE K * v
+Homogeneous ==
+    \A K \in {2, 3} :
+        /\ \A p \in {"fp_p", "fp_np", "fp_fnp"} :
+               FpDef(p, Scale(tua, K), <<Scale(oth, K)>>, K * B, K * lim) = Times(K, Fp(p, tua, B, lim))
+        /\ EdfDef("edf_p", Scale(tua, K), <<Scale(oth, K)>>, K * lim) = Times(K, Edf("edf_p", tua, oth, lim))
+        /\ FifoDef(<<Scale(tua, K), Scale(oth, K)>>, K * lim) = Times(K, FifoDef(<<tua, oth>>, lim))
+\* the negative fact (violated; not part of any registered configuration)
+EdfFnpWouldBeHomogeneous ==
+    EdfDef("edf_fnp", Scale(tua, 2), <<Scale(oth, 2)>>, 2 * lim) = Times(2, Edf("edf_fnp", tua, oth, lim))
 ===============================================================================
